@@ -44,7 +44,11 @@ enum End {
     Exit(i32),
     Signal(i32),
     Stalled(Vec<(u64, u64)>),
+    /// the child made no progress but was not given CPU time either: the machine is too busy
+    Starved,
 }
+
+use crate::isolate::cpu_secs;
 
 fn run_inner(prop: &str, tier: Tier, only: Option<(u64, u64)>, path: &std::path::Path, f: &std::fs::File, stall: Duration, quiet: bool) -> End {
     let exe = std::env::current_exe().expect("current_exe");
@@ -64,6 +68,11 @@ fn run_inner(prop: &str, tier: Tier, only: Option<(u64, u64)>, path: &std::path:
     let mut last_case = read_case(f);
     let mut since: Vec<Instant> = vec![Instant::now(); last.len()];
     let mut case_since = Instant::now();
+    let pid = child.id();
+    // "no progress" only counts while the child is being given CPU time: on an overloaded or
+    // thrashing machine a process can stand still for minutes without anything being wrong with it
+    let mut since_cpu: Vec<f64> = vec![0.0; last.len()];
+    let mut case_cpu = 0.0f64;
     loop {
         std::thread::sleep(Duration::from_millis(200));
         match child.try_wait() {
@@ -77,25 +86,34 @@ fn run_inner(prop: &str, tier: Tier, only: Option<(u64, u64)>, path: &std::path:
             Err(_) => return End::Exit(2),
         }
         let now = read_slots(f);
+        let cpu = cpu_secs(pid).unwrap_or(0.0);
         let mut stalled = vec![];
         for (i, (a, b)) in last.iter().zip(now.iter()).enumerate() {
             if a != b {
                 since[i] = Instant::now();
-            } else if b.2 == 1 && since[i].elapsed() > stall {
+                since_cpu[i] = cpu;
+            } else if b.2 == 1 && since[i].elapsed() > stall && cpu - since_cpu[i] > stall.as_secs_f64() {
+                // the block has not moved for `stall` seconds while the process burned at least that
+                // much CPU time (a spinning thread burns one core)
                 stalled.push((b.0, b.1));
             }
         }
         last = now;
         if only.is_some() {
-            // bisect mode: per-case watchdog
+            // bisect mode (one thread): per-case watchdog in CPU seconds of the child
             let c = read_case(f);
             if c != last_case {
                 last_case = c;
                 case_since = Instant::now();
-            } else if case_since.elapsed() > stall {
+                case_cpu = cpu;
+            } else if cpu - case_cpu > stall.as_secs_f64() {
                 let _ = child.kill();
                 let _ = child.wait();
                 return End::Stalled(stalled);
+            } else if case_since.elapsed() > stall * 40 {
+                let _ = child.kill();
+                let _ = child.wait();
+                return End::Starved;
             }
         } else if !stalled.is_empty() {
             let _ = child.kill();
@@ -110,7 +128,7 @@ pub fn supervise(prop: &str, tier: Tier) -> i32 {
         println!("MACHINERY-ERROR cannot create the progress file");
         return 2;
     };
-    let stall = Duration::from_secs(std::env::var("VP_STALL").ok().and_then(|s| s.parse().ok()).unwrap_or(if tier == Tier::Quick { 20 } else { 180 }));
+    let stall = Duration::from_secs(std::env::var("VP_STALL").ok().and_then(|s| s.parse().ok()).unwrap_or(if tier == Tier::Quick { 60 } else { 300 }));
     let end = run_inner(prop, tier, None, &path, &f, stall, false);
     let (how, candidates): (String, Vec<(u64, u64)>) = match end {
         End::Exit(c) => {
@@ -119,24 +137,32 @@ pub fn supervise(prop: &str, tier: Tier) -> i32 {
         }
         End::Signal(sig) => (format!("abort (signal {sig})"), read_slots(&f).into_iter().filter(|s| s.2 == 1).map(|s| (s.0, s.1)).collect()),
         End::Stalled(st) => ("hang".to_string(), st),
+        End::Starved => {
+            println!("MACHINERY-ERROR the inner check was starved of CPU time");
+            return 2;
+        }
     };
     eprintln!("[{prop}] inner check ended abnormally: {how}; bisecting {} running block(s)", candidates.len());
     let mut found = vec![];
+    let mut starved = false;
     for (s, b) in candidates.iter().take(64) {
         let Some((p2, f2)) = progress_file(&format!("{prop}-bisect")) else { continue };
-        let per_case = Duration::from_secs(if tier == Tier::Quick { 10 } else { 60 });
+        let per_case = Duration::from_secs(if tier == Tier::Quick { 30 } else { 120 });
         let end = run_inner(prop, tier, Some((*s, *b)), &p2, &f2, per_case, true);
         let culprit = read_case(&f2);
         let _ = std::fs::remove_file(&p2);
         match end {
             End::Exit(_) => {}
+            End::Starved => starved = true,
             End::Signal(sig) => found.push((format!("abort (signal {sig})"), *s, *b, culprit)),
-            End::Stalled(_) => found.push(("hang".to_string(), *s, *b, culprit)),
+            // a hang is only a finding with the case that hangs in hand
+            End::Stalled(_) if culprit.is_some() => found.push(("hang".to_string(), *s, *b, culprit)),
+            End::Stalled(_) => starved = true,
         }
     }
     let _ = std::fs::remove_file(&path);
     if found.is_empty() {
-        println!("MACHINERY-ERROR the inner check ended with {how} but no running block reproduced it in isolation");
+        println!("MACHINERY-ERROR the inner check ended with {how} but no running block reproduced it in isolation{}", if starved { " (the machine was too busy to tell: re-run)" } else { "" });
         return 2;
     }
     let dir = verif_root().join("replays").join(prop);
